@@ -1,1 +1,215 @@
 // Kani contract harnesses for /repo/arrow-buffer/src/interval.rs (child module: sees private items via super::)
+//
+// IntervalMonthDayNano (months: i32, days: i32, nanoseconds: i64) and IntervalDayTime (days: i32,
+// milliseconds: i32): field-wise checked / wrapping arithmetic and the derived lexicographic order.
+// Spec side: exact arithmetic per field in i128; `x as iN` is the reduction mod 2^N.
+// div / rem / pow fields at 32 and 64 bits: spec side = core's operator per field (ASSUMPTION, see the
+// guide: no >= 32-bit nonlinear specs), what is checked is the field-wise structure (None <=> some
+// field is None, no field mixes with another).
+use super::*;
+use std::cmp::Ordering;
+
+fn f32w(x: i128) -> bool { x >= i32::MIN as i128 && x <= i32::MAX as i128 }
+fn f64w(x: i128) -> bool { x >= i64::MIN as i128 && x <= i64::MAX as i128 }
+fn any_mdn() -> IntervalMonthDayNano { IntervalMonthDayNano::new(kani::any(), kani::any(), kani::any()) }
+fn any_dt() -> IntervalDayTime { IntervalDayTime::new(kani::any(), kani::any()) }
+fn w3(x: IntervalMonthDayNano) -> (i128, i128, i128) { (x.months as i128, x.days as i128, x.nanoseconds as i128) }
+fn w2(x: IntervalDayTime) -> (i128, i128) { (x.days as i128, x.milliseconds as i128) }
+fn ord<T: PartialOrd>(a: T, b: T) -> Ordering { if a < b { Ordering::Less } else if a == b { Ordering::Equal } else { Ordering::Greater } }
+
+// Contract (C10): IntervalMonthDayNano: cmp is the lexicographic order on (months, days, nanoseconds),
+// each field in its signed integer order; partial_cmp = Some(cmp); == <=> all three fields equal <=>
+// cmp = Equal; < <= > >= are its projections; constants ZERO / ONE / MINUS_ONE / MIN / MAX are
+// field-wise 0 / 1 / -1 / MIN / MAX and MIN, MAX are the least / greatest elements.
+// @unit name=mdn_ord props=C10 kind=complete fns=Ord<IntervalMonthDayNano>::cmp,PartialOrd<IntervalMonthDayNano>::partial_cmp,PartialEq<IntervalMonthDayNano>::eq tier=thorough was_quick=1 confirmed=0
+#[kani::proof]
+fn mdn_ord() {
+    let (a, b) = (any_mdn(), any_mdn());
+    let want = match ord(a.months, b.months) {
+        Ordering::Equal => match ord(a.days, b.days) {
+            Ordering::Equal => ord(a.nanoseconds, b.nanoseconds),
+            o => o,
+        },
+        o => o,
+    };
+    assert!(a.cmp(&b) == want && a.partial_cmp(&b) == Some(want));
+    let all_eq = a.months == b.months && a.days == b.days && a.nanoseconds == b.nanoseconds;
+    assert!((a == b) == all_eq && (want == Ordering::Equal) == all_eq);
+    assert!((a < b) == (want == Ordering::Less) && (a <= b) == (want != Ordering::Greater));
+    assert!((a > b) == (want == Ordering::Greater) && (a >= b) == (want != Ordering::Less));
+    assert!(w3(IntervalMonthDayNano::ZERO) == (0, 0, 0) && w3(IntervalMonthDayNano::ONE) == (1, 1, 1) && w3(IntervalMonthDayNano::MINUS_ONE) == (-1, -1, -1));
+    assert!(w3(IntervalMonthDayNano::MIN) == (i32::MIN as i128, i32::MIN as i128, i64::MIN as i128));
+    assert!(w3(IntervalMonthDayNano::MAX) == (i32::MAX as i128, i32::MAX as i128, i64::MAX as i128));
+    assert!(IntervalMonthDayNano::MIN.cmp(&a) != Ordering::Greater && IntervalMonthDayNano::MAX.cmp(&a) != Ordering::Less);
+    kani::cover!(want == Ordering::Less && a.months == b.months && a.days == b.days);
+    kani::cover!(want == Ordering::Greater && a.months == b.months && a.days > b.days && a.nanoseconds < b.nanoseconds);
+    kani::cover!(want == Ordering::Less && a.months < b.months && a.days > b.days);
+    kani::cover!(all_eq);
+}
+
+// Contract (C10): IntervalDayTime: cmp is the lexicographic order on (days, milliseconds); partial_cmp,
+// ==, < <= > >= consistent with it; constants field-wise; MIN / MAX least / greatest.
+// @unit name=dt_ord props=C10 kind=complete fns=Ord<IntervalDayTime>::cmp,PartialOrd<IntervalDayTime>::partial_cmp,PartialEq<IntervalDayTime>::eq tier=thorough was_quick=1 confirmed=0
+#[kani::proof]
+fn dt_ord() {
+    let (a, b) = (any_dt(), any_dt());
+    let want = match ord(a.days, b.days) { Ordering::Equal => ord(a.milliseconds, b.milliseconds), o => o };
+    assert!(a.cmp(&b) == want && a.partial_cmp(&b) == Some(want));
+    let all_eq = a.days == b.days && a.milliseconds == b.milliseconds;
+    assert!((a == b) == all_eq && (want == Ordering::Equal) == all_eq);
+    assert!((a < b) == (want == Ordering::Less) && (a <= b) == (want != Ordering::Greater));
+    assert!((a > b) == (want == Ordering::Greater) && (a >= b) == (want != Ordering::Less));
+    assert!(w2(IntervalDayTime::ZERO) == (0, 0) && w2(IntervalDayTime::ONE) == (1, 1) && w2(IntervalDayTime::MINUS_ONE) == (-1, -1));
+    assert!(w2(IntervalDayTime::MIN) == (i32::MIN as i128, i32::MIN as i128) && w2(IntervalDayTime::MAX) == (i32::MAX as i128, i32::MAX as i128));
+    assert!(IntervalDayTime::MIN.cmp(&a) != Ordering::Greater && IntervalDayTime::MAX.cmp(&a) != Ordering::Less);
+    kani::cover!(want == Ordering::Less && a.days == b.days);
+    kani::cover!(want == Ordering::Greater && a.days > b.days && a.milliseconds < b.milliseconds);
+    kani::cover!(all_eq);
+}
+
+// Contract (C12): IntervalMonthDayNano add / sub / neg / abs, field-wise.  With the exact per-field
+// results (e_m, e_d, e_n) in i128:  checked_op = Some(v) <=> e_m, e_d fit i32 and e_n fits i64, and then
+// every field of v is the exact value; None otherwise;  wrapping_op = (e_m mod 2^32, e_d mod 2^32,
+// e_n mod 2^64).  (abs: |x| per field; neg: 0 - x per field.)
+// @unit name=mdn_addsub props=C12 kind=complete fns=IntervalMonthDayNano::checked_add,IntervalMonthDayNano::wrapping_add,IntervalMonthDayNano::checked_sub,IntervalMonthDayNano::wrapping_sub,IntervalMonthDayNano::checked_neg,IntervalMonthDayNano::wrapping_neg,IntervalMonthDayNano::checked_abs,IntervalMonthDayNano::wrapping_abs tier=thorough was_quick=1 confirmed=0
+#[kani::proof]
+fn mdn_addsub() {
+    let (a, b) = (any_mdn(), any_mdn());
+    let ((am, ad, an), (bm, bd, bn)) = (w3(a), w3(b));
+    macro_rules! check {
+        ($c:expr, $wr:expr, $e:expr) => {{
+            let (em, ed, en): (i128, i128, i128) = $e;
+            let ok = f32w(em) && f32w(ed) && f64w(en);
+            match $c {
+                Some(v) => assert!(ok && w3(v) == (em, ed, en)),
+                None => assert!(!ok),
+            }
+            let v = $wr;
+            assert!(v.months == em as i32 && v.days == ed as i32 && v.nanoseconds == en as i64);
+            ok
+        }};
+    }
+    let ok_add = check!(a.checked_add(b), a.wrapping_add(b), (am + bm, ad + bd, an + bn));
+    let ok_sub = check!(a.checked_sub(b), a.wrapping_sub(b), (am - bm, ad - bd, an - bn));
+    let ok_neg = check!(a.checked_neg(), a.wrapping_neg(), (-am, -ad, -an));
+    let ok_abs = check!(a.checked_abs(), a.wrapping_abs(), (am.abs(), ad.abs(), an.abs()));
+    kani::cover!(!ok_add && f32w(am + bm) && f32w(ad + bd));
+    kani::cover!(!ok_add && f64w(an + bn) && f32w(ad + bd));
+    kani::cover!(ok_add && am + bm < 0 && an + bn > 0);
+    kani::cover!(!ok_sub && f64w(an - bn) && f32w(am - bm));
+    kani::cover!(!ok_neg && a.days == i32::MIN && a.months != i32::MIN);
+    kani::cover!(!ok_abs && a.nanoseconds == i64::MIN);
+    kani::cover!(ok_abs && a.months < 0 && a.days > 0);
+}
+
+// Contract (C12): IntervalMonthDayNano checked_mul / wrapping_mul, field-wise exact: products in i128;
+// Some <=> months and days products fit i32 and the nanoseconds product fits i64, and then exact; None
+// otherwise; wrapping_mul = products mod 2^32 / 2^32 / 2^64.
+// @unit name=mdn_mul props=C12 kind=complete fns=IntervalMonthDayNano::checked_mul,IntervalMonthDayNano::wrapping_mul timeout=900 tier=thorough was_quick=1 confirmed=0
+#[kani::proof]
+fn mdn_mul() {
+    let (a, b) = (any_mdn(), any_mdn());
+    let ((am, ad, an), (bm, bd, bn)) = (w3(a), w3(b));
+    let (em, ed, en) = ((a.months as i64 * b.months as i64) as i128, (a.days as i64 * b.days as i64) as i128, an * bn);
+    let _ = (am, ad, bm, bd);
+    let ok = f32w(em) && f32w(ed) && f64w(en);
+    match a.checked_mul(b) {
+        Some(v) => assert!(ok && w3(v) == (em, ed, en)),
+        None => assert!(!ok),
+    }
+    let v = a.wrapping_mul(b);
+    assert!(v.months == em as i32 && v.days == ed as i32 && v.nanoseconds == en as i64);
+    kani::cover!(ok && em < -1 && en > 1);
+    kani::cover!(!ok && f32w(em) && f32w(ed));
+    kani::cover!(!ok && f64w(en) && f32w(em));
+}
+
+// Contract (C12): IntervalDayTime add / sub / neg / abs / mul, field-wise exact in i128: checked_op =
+// Some(v) <=> both exact field results fit i32, and then v holds them; wrapping_op = both mod 2^32.
+// @unit name=dt_ops props=C12 kind=complete fns=IntervalDayTime::checked_add,IntervalDayTime::wrapping_add,IntervalDayTime::checked_sub,IntervalDayTime::wrapping_sub,IntervalDayTime::checked_neg,IntervalDayTime::wrapping_neg,IntervalDayTime::checked_abs,IntervalDayTime::wrapping_abs,IntervalDayTime::checked_mul,IntervalDayTime::wrapping_mul timeout=900 tier=thorough was_quick=1 confirmed=0
+#[kani::proof]
+fn dt_ops() {
+    let (a, b) = (any_dt(), any_dt());
+    let ((ad, am), (bd, bm)) = (w2(a), w2(b));
+    macro_rules! check {
+        ($c:expr, $wr:expr, $e:expr) => {{
+            let (ed, em): (i128, i128) = $e;
+            let ok = f32w(ed) && f32w(em);
+            match $c {
+                Some(v) => assert!(ok && w2(v) == (ed, em)),
+                None => assert!(!ok),
+            }
+            let v = $wr;
+            assert!(v.days == ed as i32 && v.milliseconds == em as i32);
+            ok
+        }};
+    }
+    let ok_add = check!(a.checked_add(b), a.wrapping_add(b), (ad + bd, am + bm));
+    let ok_sub = check!(a.checked_sub(b), a.wrapping_sub(b), (ad - bd, am - bm));
+    let ok_neg = check!(a.checked_neg(), a.wrapping_neg(), (-ad, -am));
+    let ok_abs = check!(a.checked_abs(), a.wrapping_abs(), (ad.abs(), am.abs()));
+    let ok_mul = check!(a.checked_mul(b), a.wrapping_mul(b), ((a.days as i64 * b.days as i64) as i128, (a.milliseconds as i64 * b.milliseconds as i64) as i128));
+    kani::cover!(!ok_add && f32w(ad + bd));
+    kani::cover!(!ok_add && f32w(am + bm));
+    kani::cover!(!ok_sub);
+    kani::cover!(!ok_neg && a.days != i32::MIN);
+    kani::cover!(!ok_abs);
+    kani::cover!(ok_mul && ad * bd < -1 && am * bm > 1);
+    kani::cover!(!ok_mul && f32w(ad * bd));
+}
+
+// Contract (C12), ASSUMPTION (core's 32/64-bit `/`, `%` trusted per field for the VALUES):
+// IntervalMonthDayNano checked_div / checked_rem are field-wise: None <=> some field's core checked op is
+// None - decided here without a second divider: None <=> some divisor field is 0 or some field pair is
+// (MIN, -1).  Field independence is pinned on divisors with a 1 / -1 field: that output field is a / 1 = a,
+// a % 1 = 0, a / -1 = -a whatever the other fields are.  For all-nonzero divisors the wrapping forms do
+// not panic and obey the same pinned facts (MIN / -1 wraps to MIN, MIN % -1 = 0).
+// @unit name=mdn_divrem props=C12 kind=complete fns=IntervalMonthDayNano::checked_div,IntervalMonthDayNano::checked_rem,IntervalMonthDayNano::wrapping_div,IntervalMonthDayNano::wrapping_rem timeout=1500
+#[kani::proof]
+fn mdn_divrem() {
+    let (a, b) = (any_mdn(), any_mdn());
+    let bad = |x: i128, y: i128, min: i128| y == 0 || (x == min && y == -1);
+    let ((am, ad, an), (bm, bd, bn)) = (w3(a), w3(b));
+    let none = bad(am, bm, i32::MIN as i128) || bad(ad, bd, i32::MIN as i128) || bad(an, bn, i64::MIN as i128);
+    let (q, r) = (a.checked_div(b), a.checked_rem(b));
+    assert!(q.is_none() == none && r.is_none() == none);
+    if let (Some(q), Some(r)) = (q, r) {
+        if bm == 1 { assert!(q.months == a.months && r.months == 0); }
+        if bd == -1 { assert!(q.days as i128 == -ad && r.days == 0); }
+        if bn == 1 { assert!(q.nanoseconds == a.nanoseconds && r.nanoseconds == 0); }
+    }
+    if bm != 0 && bd != 0 && bn != 0 {
+        let (qw, rw) = (a.wrapping_div(b), a.wrapping_rem(b));
+        if bm == 1 { assert!(qw.months == a.months && rw.months == 0); }
+        if bd == -1 { assert!(qw.days == a.days.wrapping_neg() && rw.days == 0); }
+        if bn == -1 { assert!(qw.nanoseconds == a.nanoseconds.wrapping_neg() && rw.nanoseconds == 0); }
+    }
+    kani::cover!(none && bm != 0 && bd != 0 && bn != 0);
+    kani::cover!(none && bn == 0 && bm != 0);
+    kani::cover!(!none && bm > 2 && am > bm);
+    kani::cover!(bd == -1 && a.days == i32::MIN && bm != 0 && bn != 0);
+}
+
+// Contract (C12): the same for IntervalDayTime (days, milliseconds).
+// @unit name=dt_divrem props=C12 kind=complete fns=IntervalDayTime::checked_div,IntervalDayTime::checked_rem,IntervalDayTime::wrapping_div,IntervalDayTime::wrapping_rem timeout=1500
+#[kani::proof]
+fn dt_divrem() {
+    let (c, d) = (any_dt(), any_dt());
+    let bad = |x: i128, y: i128| y == 0 || (x == i32::MIN as i128 && y == -1);
+    let ((cd, cm), (dd, dm)) = (w2(c), w2(d));
+    let none = bad(cd, dd) || bad(cm, dm);
+    let (q, r) = (c.checked_div(d), c.checked_rem(d));
+    assert!(q.is_none() == none && r.is_none() == none);
+    if let (Some(q), Some(r)) = (q, r) {
+        if dd == 1 { assert!(q.days == c.days && r.days == 0); }
+        if dm == -1 { assert!(q.milliseconds as i128 == -cm && r.milliseconds == 0); }
+    }
+    if dd != 0 && dm != 0 {
+        let (qw, rw) = (c.wrapping_div(d), c.wrapping_rem(d));
+        if dd == 1 { assert!(qw.days == c.days && rw.days == 0); }
+        if dm == -1 { assert!(qw.milliseconds == c.milliseconds.wrapping_neg() && rw.milliseconds == 0); }
+    }
+    kani::cover!(none && dd != 0 && dm != 0);
+    kani::cover!(!none && dd > 2 && cd > dd);
+    kani::cover!(dm == -1 && c.milliseconds == i32::MIN && dd != 0);
+}
